@@ -103,8 +103,12 @@ impl Verdict {
 }
 
 pub fn strip_file_prefix(name: &str) -> String {
-    // default rule of a named file is "<file>/default"
-    name.to_string()
+    // the default rule of a named file is "<file>/default"; every other rule has its bare name
+    if name.ends_with("/default") {
+        "default".to_string()
+    } else {
+        name.to_string()
+    }
 }
 
 /// Extract top-level RuleCheck statuses and the FileCheck status from the verbose record.
